@@ -1,6 +1,7 @@
 import SsoSpec.C07
 import SsoSpec.C04
 import SsoSpec.C16
+import SsoSpec.C05
 
 /-!
 # C19 — sign-out really signs out
@@ -72,5 +73,121 @@ theorem C19_old_proxy_session_refused (lower : Bytes → Bytes) (P : Policy) (no
   right; refine ⟨hr, hv, ?_⟩
   obtain ⟨n, h, hu⟩ := hrefused
   unfold validateWhy; simp [h, hu]
+
+/-! ### After the sign-out: the whole remaining history of an old cookie -/
+
+/-- The identity provider has revoked the session's tokens, so the authenticator relays a refusal (any status that is not
+429/503) both at `/validate` and at `/refresh`. Revocation is permanent: this holds at every later request. -/
+def RevokedAns (a : Ans) : Prop :=
+  (∃ n, a.validate = .status n ∧ unavailable n = false) ∧ (∃ n, a.refresh = .status n ∧ unavailable n = false)
+
+theorem revoked_whys (P : Policy) (now : Int) (s : Sess) (a : Ans) (h : RevokedAns a) :
+    refreshWhy P now s a = none ∧ validateWhy P now s a = none := by
+  obtain ⟨⟨n1, h1, u1⟩, ⟨n2, h2, u2⟩⟩ := h
+  constructor
+  · unfold refreshWhy; split; · rfl
+    simp [h2, u2]
+  · unfold validateWhy; simp [h1, u1]
+
+/-- one request with a revoked session: whatever the response leaves in the jar is the *same* session (never a re-sealed one) -/
+theorem revoked_step (lower : Bytes → Bytes) (P : Policy) (st : LStep) (s s' : Sess) (hrev : RevokedAns st.ans)
+    (h : jarAfter (.opens s) (proxy lower P st.now st.req (.opens s) st.ans).writes = .opens s') : s' = s := by
+  have hg := step_grace_is_episode lower P st s s' h
+  have ⟨hrw, hvw⟩ := revoked_whys P st.now s st.ans hrev
+  unfold proxy at h
+  by_cases hw : whitelisted P st.req = true
+  · simp [hw, jarAfter] at h; exact h.symm
+  · simp only [hw, Bool.false_eq_true, if_false] at h
+    replace h : jarAfter (.opens s) (authenticate lower P st.now st.req.host (.opens s) st.ans).writes = .opens s' := by
+      cases hres : (authenticate lower P st.now st.req.host (.opens s) st.ans).res <;> simpa [hres] using h
+    unfold authenticate at h
+    simp only at h
+    by_cases h1 : s.slug ≠ P.slug
+    · simp [h1, jarAfter] at h
+    · by_cases h2 : st.req.host ≠ s.host
+      · simp [h1, h2, jarAfter] at h
+      · by_cases h3 : exp s.lifetime st.now = true
+        · simp [h1, h2, h3, jarAfter] at h
+        · simp only [h1, h2, h3, if_false] at h
+          by_cases hr : exp s.refresh st.now = true
+          · simp only [hr, if_true] at h
+            have hiff := refreshSession_ok_iff P st.now s st.ans
+            rcases hrs : refreshSession P st.now s st.ans with ⟨s1, r, calls⟩
+            rw [hrs] at h hiff
+            cases r with
+            | error e => simp [jarAfter] at h
+            | ok b =>
+              cases b with
+              | false => simp [jarAfter] at h
+              | true => have := hiff.1 rfl; rw [hrw] at this; simp at this
+          · simp only [hr, Bool.false_eq_true, if_false] at h
+            by_cases hv0 : exp s.valid st.now = true
+            · simp only [hv0, if_true] at h
+              have hiff := validateSession_true_iff P st.now s st.ans
+              rcases hrs : validateSession P st.now s st.ans with ⟨s1, b, calls⟩
+              rw [hrs] at h hiff
+              cases b with
+              | false => simp [jarAfter] at h
+              | true => have := hiff.1 rfl; rw [hvw] at this; simp at this
+            · simp only [hv0, Bool.false_eq_true, if_false] at h
+              by_cases hv : requestValidators lower P s = true
+              · simp [hv, jarAfter] at h; exact h.symm
+              · simp [hv, jarAfter] at h
+
+/-- **The old cookie dies, along every history.** Take any saved copy `s` of a proxy session whose tokens have been
+revoked at the identity provider (sign-out completed), and any later history of requests presenting it — any number,
+any timing, any paths. Then (1) the proxy never re-seals it: the browser's jar holds the original `s` or nothing, so no
+deadline ever moves; and (2) a request is served from it only at an instant at which neither its refresh nor its
+validity deadline has passed — i.e. at most until the revalidation that was already scheduled when the sign-out
+happened; the first request after that is refused and clears the cookie (`C19_old_proxy_session_refused`), after which
+nothing is ever served again. -/
+theorem C19_revoked_session_dies (lower : Bytes → Bytes) (P : Policy) (s : Sess) (c : CookieIn) (ep : Option Int) (sts : List LStep)
+    (hc : ∀ s', c = .opens s' → s' = s) (hrev : ∀ st ∈ sts, RevokedAns st.ans) :
+    ∀ x ∈ runL lower P c ep sts,
+      (∀ s', x.1 = .opens s' → s' = s) ∧
+      (∀ id, (proxy lower P x.2.2.now x.2.2.req x.1 x.2.2.ans).outcome = .forward (some id) →
+          x.1 = .opens s ∧ exp s.refresh x.2.2.now = false ∧ exp s.valid x.2.2.now = false) := by
+  induction sts generalizing c ep with
+  | nil => intro x hx; simp [runL] at hx
+  | cons st t ih =>
+    intro x hx
+    simp only [runL, List.mem_cons] at hx
+    have hst : RevokedAns st.ans := hrev st (by simp)
+    rcases hx with rfl | hx
+    · refine ⟨hc, ?_⟩
+      intro id hf
+      simp only at hf
+      rcases C01_forward_sound lower P st.now st.req c st.ans (some id) hf with ⟨_, h⟩ | ⟨_, s0, hs0, _, _, _, _, _⟩
+      · cases h
+      · have hs : s0 = s := hc s0 hs0
+        subst hs
+        have hd := C04_due_means_checked lower P st.now st.req s0 st.ans id (by rw [← hs0]; exact hf)
+        have ⟨hrw, hvw⟩ := revoked_whys P st.now s0 st.ans hst
+        refine ⟨hs0, ?_, ?_⟩
+        · cases h : exp s0.refresh st.now with
+          | false => rfl
+          | true => have := hd.1 h; rw [hrw] at this; simp at this
+        · cases hr : exp s0.refresh st.now with
+          | true => have := hd.1 hr; rw [hrw] at this; simp at this
+          | false =>
+            cases h : exp s0.valid st.now with
+            | false => rfl
+            | true => have := hd.2 hr h; rw [hvw] at this; simp at this
+    · refine ih _ _ ?_ (fun st' h' => hrev st' (by simp [h'])) x hx
+      intro s' hs'
+      cases c with
+      | opens s0 =>
+        have : s0 = s := hc s0 rfl
+        subst this
+        exact revoked_step lower P st s0 s' hst hs'
+      | absent => exact absurd hs' (jar_stays_empty lower P st .absent (by intro s; simp) s')
+      | junk => exact absurd hs' (jar_stays_empty lower P st .junk (by intro s; simp) s')
+
+-- non-vacuity: signed out at 120; the old cookie (valid until 100+… see exSess) is served while fresh, refused once due, dead afterwards
+def exRevoked : Ans := { refresh := .status 401, validate := .status 401, profile := .ok [] }
+example : RevokedAns exRevoked := ⟨⟨401, rfl, by decide⟩, ⟨401, rfl, by decide⟩⟩
+example : (runL id exPol (.opens exSess) none [⟨50, exReq, exRevoked⟩, ⟨90, exReq, exRevoked⟩, ⟨150, exReq, exRevoked⟩, ⟨160, exReq, exRevoked⟩]).map
+    (fun x => (proxy id exPol x.2.2.now x.2.2.req x.1 x.2.2.ans).outcome)
+    = [.forward (some ⟨"a", [97, 64, 120], [], none⟩), .forward (some ⟨"a", [97, 64, 120], [], none⟩), .errorPage 403, .startOAuth] := by decide
 
 end Sso.Proxy
